@@ -813,7 +813,7 @@ class Model:
         t = {}
         groups = [("op", self._t_op), ("resp", self._t_resp), ("status", self._t_status), ("bitflags", self._t_bitflags),
                   ("dispatch", self._t_dispatch), ("consts", self._t_consts), ("fingerprints", self._t_fingerprints),
-                  ("gating", self._t_gating), ("arb", self._t_arb)]
+                  ("gating", self._t_gating), ("layouts", self._t_layouts), ("arb", self._t_arb)]
         for aspect, fn in groups:
             part = {}
             try:
@@ -988,6 +988,150 @@ class Model:
             if it["kind"] == "const":
                 gated |= cfg_mentions(it.get("attrs", []))
         t["wire_gating_features"] = sorted(gated)
+
+    # ------------------------------------------------------------------ straight-line serialisers (C07, C09)
+    LAYOUT_FIELDS = {"rp_id_hash", "flags", "sign_count", "attested_credential_data", "extensions", "aaguid", "credential_id",
+                     "credential_public_key", "header_byte", "public_key", "key_handle", "attestation_certificate", "signature",
+                     "user_presence", "count", "version"}
+
+    @staticmethod
+    def split_statements(body):
+        """statements of a `{ .. }` block (token string without spaces): split at depth-0 `;` and
+        after a depth-0 `if .. { .. }` block"""
+        assert body[0] == "{" and body[-1] == "}", body[:40]
+        body = body[1:-1]
+        out, depth, cur = [], 0, ""
+        for i, ch in enumerate(body):
+            cur += ch
+            if ch in "({[":
+                depth += 1
+            elif ch in ")}]":
+                depth -= 1
+                if depth == 0 and ch == "}" and cur.startswith("if") and not body[i + 1:i + 5].startswith("else"):
+                    out.append(cur)
+                    cur = ""
+            elif ch == ";" and depth == 0:
+                out.append(cur[:-1])
+                cur = ""
+        if cur:
+            out.append(cur)
+        return [x for x in out if x]
+
+    def layout_of(self, where, body, buf, recv, bound=None, last_may_lack_q=False, tail=None):
+        """translate a straight-line serialiser body into layout steps.  `buf` = the buffer
+        variable, `recv` = the value whose members are written (`self`, `reg`, ..)."""
+        ERR = r"(?:\.map_err\((?:\|_\|Error::Other|drop)\))?"
+        steps = []
+        lens = dict(bound or {})
+        stmts = self.split_statements(body)
+        for k, st in enumerate(stmts):
+            is_last = k == len(stmts) - 1
+            if tail is not None and is_last:
+                if st != tail:
+                    raise Untranslatable(where, f"unexpected final expression {st[:60]}")
+                continue
+            m = re.fullmatch(r"letmut%s=SerializedAuthenticatorData::new\(\)" % buf, st)
+            if m:
+                if steps:
+                    raise Untranslatable(where, "buffer re-initialised")
+                continue
+            m = re.fullmatch(r"let(\w+)=u16::try_from\(%s\.(\w+)\.len\(\)\)\.map_err\(\|_\|Error::Other\)\?" % recv, st)
+            if m:
+                lens[m.group(1)] = m.group(2)
+                continue
+            m = re.fullmatch(r"%s\.(extend_from_slice|push)\((.*?)\)%s(\??)" % (buf, ERR), st)
+            if m:
+                if not m.group(3) and not (is_last and last_may_lack_q):
+                    raise Untranslatable(where, f"append whose failure is not propagated: {st[:60]}")
+                kind, e = m.group(1), m.group(2)
+                mm = re.fullmatch(r"&?%s\.(\w+)" % recv, e)
+                if kind == "extend_from_slice" and mm:
+                    steps.append({"k": "slice", "f": mm.group(1)})
+                elif kind == "extend_from_slice" and e in lens.values() and False:
+                    pass
+                elif kind == "extend_from_slice" and re.fullmatch(r"\w+", e) and e in (bound or {}):
+                    steps.append({"k": "slice", "f": bound[e]})
+                elif kind == "extend_from_slice" and (mm := re.fullmatch(r"&%s\.(\w+)\.to_be_bytes\(\)" % recv, e)):
+                    steps.append({"k": "be", "f": mm.group(1), "w": None})
+                elif kind == "extend_from_slice" and (mm := re.fullmatch(r"&(\w+)\.to_be_bytes\(\)", e)) and mm.group(1) in lens:
+                    steps.append({"k": "lenBE16", "f": lens[mm.group(1)]})
+                elif kind == "push" and (mm := re.fullmatch(r"%s\.(\w+)" % recv, e)):
+                    steps.append({"k": "byte", "f": mm.group(1)})
+                elif kind == "push" and (mm := re.fullmatch(r"%s\.(\w+)\.bits\(\)" % recv, e)):
+                    steps.append({"k": "byte", "f": mm.group(1)})
+                elif kind == "push" and (mm := re.fullmatch(r"%s\.(\w+)\.len\(\)asu8" % recv, e)):
+                    steps.append({"k": "len8", "f": mm.group(1)})
+                else:
+                    raise Untranslatable(where, f"appended expression not recognised: {e[:60]}")
+                continue
+            m = re.fullmatch(r"ifletSome\((\w+)\)=&%s\.(\w+)\{(\w+)\.serialize\(&mut%s\)\?;\}" % (recv, buf), st)
+            if m and m.group(1) == m.group(3):
+                steps.append({"k": "optNested", "f": m.group(2)})
+                continue
+            m = re.fullmatch(r"ifletSome\((\w+)\)=%s\.(\w+)\.as_ref\(\)\{cbor_smol::cbor_serialize_to\((\w+),&mut%s\)"
+                             r"\.map_err\(\|_\|Error::Other\)\?;\}" % (recv, buf), st)
+            if m and m.group(1) == m.group(3):
+                steps.append({"k": "optCbor", "f": m.group(2)})
+                continue
+            raise Untranslatable(where, f"statement not recognised: {st[:80]}")
+        for s_ in steps:
+            if s_["f"] not in self.LAYOUT_FIELDS:
+                raise Untranslatable(where, f"member {s_['f']} is not one the layout model knows")
+        return steps
+
+    def int_width(self, struct_name, module, field, feats):
+        it = self.lookup(struct_name, module, ("struct",), feats)
+        if it is None:
+            raise Untranslatable(struct_name, "struct not found")
+        for f, _ in self.fields_of(it, feats):
+            if f["name"] == field:
+                w = {"u8": 1, "u16": 2, "u32": 4, "u64": 8}.get(f["ty"].get("name"))
+                if w is None:
+                    raise Untranslatable(struct_name + "." + field, "not a fixed-width unsigned integer")
+                return w
+        raise Untranslatable(struct_name + "." + field, "field not found")
+
+    def _t_layouts(self, t, feats):
+        lay = {}
+        for imp in self.impls:
+            tr = (imp["trait"] or "").replace(" ", "")
+            st = imp["self_ty"].replace(" ", "")
+            for f in imp["items"]:
+                if f["kind"] != "fn" or f["name"] != "serialize" or not f.get("body"):
+                    continue
+                body = f["body"].replace(" ", "")
+                if tr == "" and st == "AuthenticatorData<'a,A,E>" and imp["module"] == "ctap2":
+                    steps = self.layout_of("AuthenticatorData::serialize", body, "bytes", "self", tail="Ok(bytes)")
+                    for s_ in steps:
+                        if s_["k"] == "be":
+                            s_["w"] = self.int_width("AuthenticatorData", "ctap2", s_["f"], feats)
+                    lay["authData"] = steps
+                if tr == "super::SerializeAttestedCredentialData" and st == "AttestedCredentialData<'a>":
+                    lay["attested"] = self.layout_of("AttestedCredentialData::serialize", body, "buffer", "self", tail="Ok(())")
+                if tr == "" and st == "Response" and imp["module"] == "ctap1":
+                    mt = f["matches"][0] if f.get("matches") else None
+                    if mt is None or mt["scrutinee"].strip() != "self" or body.count("match") != 1:
+                        raise Untranslatable("ctap1::Response::serialize", "expected a single `match self`")
+                    for arm in mt["arms"]:
+                        pat = arm["pat"].replace(" ", "")
+                        mm = re.fullmatch(r"Response::(\w+)\((\w+)\)", pat)
+                        if not mm or arm.get("guard"):
+                            raise Untranslatable("ctap1::Response::serialize", f"arm pattern {pat}")
+                        variant, var = mm.group(1), mm.group(2)
+                        ab = arm["body"].replace(" ", "")
+                        if not ab.startswith("{"):
+                            ab = "{" + ab + "}"
+                        steps = self.layout_of("ctap1::Response::serialize/" + variant, ab, "buf", var,
+                                               bound={var: "version"} if variant == "Version" else None, last_may_lack_q=True)
+                        sname = {"Register": ("register", "Response"), "Authenticate": ("authenticate", "Response")}.get(variant)
+                        for s_ in steps:
+                            if s_["k"] == "be":
+                                s_["w"] = self.int_width(sname[1], "ctap1::" + sname[0], s_["f"], feats) if sname else None
+                        lay["u2f" + variant] = steps
+        for need in ("authData", "attested", "u2fRegister", "u2fAuthenticate", "u2fVersion"):
+            if need not in lay:
+                raise Untranslatable("layouts", need + " serialiser not found")
+        t["layouts"] = lay
 
     def _t_arb(self, t, feats):
         t["arb"] = self.arb_tables()
